@@ -499,7 +499,7 @@ Tok(n, b, cls) == [n |-> n, b |-> b, cls |-> cls]
 Alphabet == <<
   Tok("a", <<97>>, "plain"), Tok("1", <<49>>, "plain"), Tok("sp", <<32>>, "plain"), Tok("nl", <<10>>, "nl"),
   Tok("dq", <<34>>, "dq"), Tok("sq", <<39>>, "sq"), Tok("slash", <<47>>, "slash"), Tok("copen", <<47, 42>>, "copen"),
-  Tok("cline", <<47, 47>>, "cline"), Tok("cclose", <<42, 47>>, "plain"), Tok("bslash", <<92>>, "bslash"),
+  Tok("cline", <<47, 47>>, "cline"), Tok("cclose", <<42, 47>>, "slash"), Tok("bslash", <<92>>, "bslash"),
   Tok("lp", <<40>>, "plain"), Tok("rp", <<41>>, "plain"), Tok("lb", <<123>>, "plain"), Tok("rb", <<125>>, "plain"),
   Tok("lk", <<91>>, "plain"), Tok("rk", <<93>>, "plain"), Tok("semi", <<59>>, "plain"), Tok("eq", <<61>>, "plain"),
   Tok("dot", <<46>>, "plain"), Tok("colon", <<58>>, "plain"), Tok("hash", <<35>>, "illegal"),
@@ -512,6 +512,7 @@ Alphabet == <<
   Tok("0x", <<48, 120>>, "plain"), Tok("1e", <<49, 101>>, "plain"),
   Tok("get", <<103, 101, 116, 32>>, "plain"), Tok("while1", <<119, 104, 105, 108, 101, 40, 49, 41>>, "plain") >>
 NCoreTok == 26
+(* "*/" outside a comment is the operator * followed by a slash that may open a regular expression literal *)
 Openers == {"dq", "sq", "slash", "copen", "cline", "bslash"}
 RECURSIVE FirstOpener(_, _)
 FirstOpener(ts, i) == IF i > Len(ts) THEN 0 ELSE IF Alphabet[ts[i]].cls \in Openers THEN i ELSE FirstOpener(ts, i + 1)
@@ -531,6 +532,10 @@ SrcExpect(api, ts) ==
         \* Otto.Call(source, nil) parses source + "()" and indexes statement 0: a line comment hides the "()"
         hidesCall == \E i \in 1..Len(ts) : cls(i) \in {"cline", "slash", "copen"}
     IN  CASE api = "Call" /\ D("D02_ottocall_empty_program_index_panics") /\ hidesCall -> Widen(AnyOrDiverge, {"runtime.boundsError"}, FALSE, {})
+          \* new Function(body) wraps the text in "(function(){" ... "})" and asserts that the result is a function
+          \* literal: a body that closes the wrapper itself ("} in {") is some other expression
+          [] api = "Function" /\ D("D02_function_ctor_body_not_functionbody_panics") /\ (\E i \in 1..Len(ts) : Alphabet[ts[i]].n = "rb") /\ ~(illegalBefore \/ unterminated)
+                -> Widen(AnyOrDiverge, {"*runtime.TypeAssertionError"}, FALSE, {})
           [] api \in ProgramAPIs /\ (illegalBefore \/ unterminated) -> OnlyError("SyntaxError")
           [] api = "Compile" -> ValueOr({"SyntaxError", "ReferenceError"})        \* 16: early errors only; nothing is evaluated
           [] api = "JSON" /\ illegalBefore /\ fo = 0 -> OnlyError("SyntaxError")  \* 15.12.1: no such character in JSONText
